@@ -275,7 +275,8 @@ def walk_here_statement(buff, pos):
     end_here = buff.find(here_word, end_here)
     while end_here != -1:
         i = here_len + end_here
-        if buff[i] in ";\n\r})":
+        # an empty here word (<<'') is terminated by an empty line only
+        if buff[i] in (";\n\r})" if here_len else "\n\r"):
             i = end_here - 1
             while i >= 0 and buff[i] in "\t ":
                 i -= 1
